@@ -87,6 +87,16 @@ CHECKS = {
             'never change afterwards. The child is left to become a zombie (seen in /proc, never reaped by us) before it is observed.',
             'sh implements exit N / kill -S $$ faithfully; PIPE and XFSZ are inherited as ignored from Python and excluded.',
             'DESIGN.md 3/C09'),
+    'C10': ('E3 real children, /proc truth, decoy descriptors',
+            'model-based testing: Hypothesis-generated lifecycle operation sequences over real pty children with six '
+            'dispositions (and fdspawn/SocketSpawn rule subsets); invariants against /proc after every step; decoy '
+            'socketpairs take over released descriptor numbers; os.kill interposed to catch signals to reaped pids',
+            'Generated sequences over isalive/wait/kill/terminate/close/sendeof/expect/send/read/with-exit/del on children '
+            'that are normal, ignore HUP/INT(/TERM), are stopped, have exited or exit mid-sequence: liveness claims are '
+            'compared with /proc, leaks are counted in /proc/self/fd, and I/O after release must raise without touching '
+            'the sockets that now own the old number.',
+            'Truth from /proc (state, ppid, start time). wait() only generated once the child has been told to die.',
+            'DESIGN.md 3/C10'),
     'C11': ('E3 recording peers + recording log objects',
             'the C08 history runner with recording log files in all 8 combinations; transcript oracle (read log, send '
             'log, merged log in operation order, flush after every write, string type per mode); interact() sessions '
@@ -185,7 +195,7 @@ def main():
                                'interposed from the harness by replacing module attributes; virtual clock; peer actions '
                                'fired between reader syscalls; detection of waits that can never end'},
             {'name': 'E3', 'path': 'vf/engines/peers.py, vf/engines/dialogue.py, peers/rawpeer.py, peers/probe.py',
-             'serves_properties': ['C04', 'C05', 'C06', 'C07', 'C08', 'C09', 'C11', 'C13'],
+             'serves_properties': ['C04', 'C05', 'C06', 'C07', 'C08', 'C09', 'C10', 'C11', 'C13'],
              'kind_free_text': 'real peers: scripted pty/Popen children recording what they receive, pre-filled '
                                'pipes/socketpairs, recording log files'},
             {'name': 'E4', 'path': 'vf/engines/screenmodel.py', 'serves_properties': ['C19'],
